@@ -626,7 +626,12 @@ def literal_tokens(chk):
             e = rng.choice([0, 1, -1, 5, 300, 308, 309, 400, -300, -306, -330, -400, 20, 19, 18])
             s = rng.choice(["", "-", "+"]) + m + rng.choice(["e", "E"]) + rng.choice(["", "+", "-"]) .replace("-", "-" if e < 0 else "") + str(abs(e))
         elif k < 0.75:   # hexadecimal floats
-            s = rng.choice(["", "-"]) + "0x" + "%x" % rng.randint(0, 2**40) + rng.choice(["", ".", ".8", ".0001"]) + rng.choice(["", "p0", "p10", "p-10", "p1000", "p1030", "p-1030", "p-1080", "p-1100"])
+            ex = rng.choice(["", "p0", "p10", "p-10", "p1000", "p1030", "p-1030", "p-1080", "p-1100"])
+            # in the subnormal range keep the mantissa short: the driver takes the value of a literal from
+            # OCaml's float_of_string, whose hexadecimal parser rounds long inexact subnormals differently
+            # from glibc's strtod (values of literals are the host's business, not the property's)
+            tiny = ex in ("p-1030", "p-1080", "p-1100")
+            s = rng.choice(["", "-"]) + "0x" + "%x" % rng.randint(0, 255 if tiny else 2**40) + rng.choice(["", ".", ".8"] if tiny else ["", ".", ".8", ".0001"]) + ex
         elif k < 0.9:    # complex
             a = rng.choice(special[:60]); b = rng.choice(special[:60]); s = a + ";" + b
         else:            # junk
